@@ -152,14 +152,15 @@ structure UInv (s : S) : Prop where
 
 /-- what is assumed of a line, beyond `UInv`:
 
-* `conn` — for `nc_start` / `hq_start`: the descriptor `socket()` would return (`freshFd`: the lowest one not used
+* `conn` — for `nc_start` / `hq_start` / `hqs_start`: the descriptor `socket()` would return (`freshFd`: the lowest one not used
   by an outstanding connect) has no write registration and fits the socket list, and there are fewer than `2^32`
   timers.  `freshFd` avoids only the sockets of `w.conns`; it could reach a slot descriptor (64‥87) only with more
   than 60 connects outstanding, the harness has 32 + 32 handles and the generator makes < 60 ops per case.
 
 (For `end` nothing is assumed: `ReleaseCovers s` is proved from `UInv` in part E, `releaseCovers`.) -/
 structure WF (s : S) (op : UOp) : Prop where
-  conn : ∀ a tm l fd, (callOf s op = some (.connect a tm fd) ∨ callOf s op = some (.http a l fd)) →
+  conn : ∀ a tm l fd, (callOf s op = some (.connect a tm fd) ∨ callOf s op = some (.http a l fd) ∨
+      ∃ hl, callOf s op = some (.https a l fd hl)) →
     (skipFailNow a ≠ [] → fdOk s.w fd true) ∧ s.w.ev.timers.length < 2^32
 
 theorem noFalseFail_of_ok {w : World} {c : LOp} (h : (stepR w c).1 = .ok) : NoFalseFail w c :=
@@ -192,7 +193,10 @@ theorem call_noFalseFail (s : S) (op : UOp) (U : UInv s) (wf : WF s op) (c0 : LO
     exact ready_noFalseFail _ _ hI (wf.conn a tm 0 _ (Or.inl hc))
   | hqStart h a pl =>
     obtain ⟨_, _, rfl⟩ := callOf_hqStart hc
-    exact ready_noFalseFail _ _ hI (wf.conn a none _ _ (Or.inr hc))
+    exact ready_noFalseFail _ _ hI (wf.conn a none _ _ (Or.inr (Or.inl hc)))
+  | hqsStart h a pl hl =>
+    obtain ⟨_, _, rfl⟩ := callOf_hqsStart hc
+    exact ready_noFalseFail _ _ hI (wf.conn a none _ _ (Or.inr (Or.inr ⟨hl, hc⟩)))
   | nbrWait h len =>
     obtain ⟨rid, r, _, hf, hcr, hi, hslot, rfl⟩ := callOf_nbrWait hc
     obtain ⟨hrm, hid⟩ := Run.find_key (fun x : Reader => x.id) hf
@@ -283,6 +287,7 @@ theorem callOf_init_fd {s : S} {op : UOp} {c0 : LOp} (hc : callOf s op = some c0
     simp only [FDBASE, NSLOT] at *; omega
   | ncStart hh a tm => obtain ⟨_, _, rfl⟩ := callOf_ncStart hc; rcases h with h | h <;> cases h
   | hqStart hh a pl => obtain ⟨_, _, rfl⟩ := callOf_hqStart hc; rcases h with h | h <;> cases h
+  | hqsStart hh a pl hl => obtain ⟨_, _, rfl⟩ := callOf_hqsStart hc; rcases h with h | h <;> cases h
   | nbrWait hh len => obtain ⟨_, _, _, _, _, _, _, rfl⟩ := callOf_nbrWait hc; rcases h with h | h <;> cases h
   | nbwReserve hh len => obtain ⟨_, _, _, _, _, rfl⟩ := callOf_nbwReserve hc; rcases h with h | h <;> cases h
   | nbwConsume hh len => obtain ⟨_, _, _, _, _, _, _, rfl⟩ := callOf_nbwConsume hc; rcases h with h | h <;> cases h
@@ -328,6 +333,7 @@ theorem tabs_step (s : S) (op : UOp) (U : UInv s) (wf : WF s op) :
   | rel k h => exact hcallk rfl
   | ncStart h a t => exact hcallk rfl
   | hqStart h a pl => exact hcallk rfl
+  | hqsStart h a pl hl => exact hcallk rfl
 
 /-- **One protocol line**: in a state satisfying `UInv`, for a line satisfying `WF`, the monitor accepts the line
 the model prints, and `UInv` holds in the next state. -/
@@ -376,21 +382,21 @@ example : (stepOp (stepOp (stepOp {} (.start .read 0 0)).1 (.rel .nrCancel 0)).1
 
 /-- `WF` holds for the lines of a concrete run: a read on slot 0, a connect, `end` -/
 example : WF {} (.start .read 0 0) :=
-  ⟨fun a tm l fd h => (by rcases h with h | h <;> cases h)⟩
+  ⟨fun a tm l fd h => (by rcases h with h | h | ⟨hl, h⟩ <;> cases h)⟩
 
 example : WF {} (.ncStart 0 [.success] none) := by
   refine ⟨fun a tm l fd h => ?_⟩
   refine ⟨fun _ => ⟨?_, ?_⟩, by decide⟩
   · rintro ⟨id, hm⟩
-    rcases h with h | h <;> cases h
+    rcases h with h | h | ⟨hl, h⟩ <;> cases h
     simp [Percival.Proofs.EvRegNet.regNet, EvReg.registry, EvReg.netOf] at hm
-  · rcases h with h | h <;> cases h
+  · rcases h with h | h | ⟨hl, h⟩ <;> cases h
     decide
 
 example : ReleaseCovers (stepOp {} (.start .read 0 0)).1 :=
   releaseCovers _ (up_step_sound {} (.start .read 0 0) uinv_init
-    ⟨fun a tm l fd h => (by rcases h with h | h <;> cases h)⟩).2.inv
+    ⟨fun a tm l fd h => (by rcases h with h | h | ⟨hl, h⟩ <;> cases h)⟩).2.inv
     (up_step_sound {} (.start .read 0 0) uinv_init
-    ⟨fun a tm l fd h => (by rcases h with h | h <;> cases h)⟩).2.tabs
+    ⟨fun a tm l fd h => (by rcases h with h | h | ⟨hl, h⟩ <;> cases h)⟩).2.tabs
 
 end Percival.Proofs.UpMonSound
